@@ -71,8 +71,7 @@ def rows(tier: str):
          [[rm('1/a', '1'), rm('1/b', '1'), rm('1/c', '1')]]),
         ('diamond-rm-bd', 'diamond', 1,
          [[rm('1/b'), rm('1/d', '1'), rm('1/a', '1')]]),
-        ('ordiamond-rm-bc', 'ordiamond', 1,
-         [[rm('1/b'), rm('1/c', '1')]]),
+        ('ordiamond-rm-b', 'ordiamond', 1, [[rm('1/b')]]),
         ('diamond-forced-rm', 'diamond', 1,
          [[setpre('1/d', ['1/b:succeeded'])], [rm('1/b'), rm('1/c')]]),
         ('chain-flow2-rm', 'chain', 1,
@@ -91,15 +90,14 @@ def rows(tier: str):
          [[rm('1/a'), rm('2/a', '1'), rm('1/b'), rm('2/b')]]),
         ('diamond-rm-ac', 'diamond', 1,
          [[rm('1/a'), rm('1/c'), rm('1/d'), rm('1/b', '1')]]),
-        ('chain-rm-rerun-ab', 'chain', 1,
-         [[rm('1/a'), rm('1/b')],
-          [setpre('1/a', ['all']), setpre('1/b', ['all'])]]),
+        ('ordiamond-rm-c', 'ordiamond', 1, [[rm('1/c', '1')]]),
+        ('chain-rm-rerun-a', 'chain', 1,
+         [[rm('1/a')], [setpre('1/a', ['all'])]]),
         ('chain-rm-rerun-flow1', 'chain', 1,
-         [[rm('1/a', '1'), rm('1/b', '1')],
-          [setpre('1/a', ['all'], '1'), setpre('1/b', ['all'], '1')]]),
+         [[rm('1/b', '1')], [setpre('1/b', ['all'], '1')]]),
         ('chain-forced-rm', 'chain', 1,
          [[setpre('1/c', ['1/b:succeeded']), setpre('1/b', ['all'])],
-          [rm('1/b'), rm('1/a', '1')]]),
+          [rm('1/b')]]),
         ('chain-flow2-rm-a', 'chain', 1,
          [[trig('1/a', '2')],
           [rm('1/a', '2'), rm('1/a', '1'), rm('1/c', '2')]]),
@@ -150,6 +148,12 @@ def run(ctx: Ctx) -> Result:
     return result_from(
         ctx, st, prop='C30',
         bounds={'workflows': [s['name'] for s in specs],
+                'profiles': {
+                    s['name']: [[f"{n} {' '.join(k['tasks'])} "
+                                 f"flow={','.join(k['flow']) or 'all'}"
+                                 f"{' pre=' + ','.join(k['prerequisites']) if k.get('prerequisites') else ''}"
+                                 for n, k in ops] for ops in s['op_lists']]
+                    for s in specs},
                 'removals per execution': 1,
                 'set-up / follow-up commands per execution': '0-1'},
         assumptions=ASSUME, min_states=100,
